@@ -40,7 +40,7 @@ def run(c):
     drv = c.driver(DRIVER)
     if binary and drv:
         # thorough: 6 chunks with derived seeds (the streams are tens of MB each; keep them out of memory one at a time)
-        chunks = [(c.seed, 1000)] if c.tier != "thorough" else [(c.seed + 7919 * k, 2500) for k in range(6)]
+        chunks = [(c.seed, 700)] if c.tier != "thorough" else [(c.seed + 7919 * k, 2500) for k in range(6)]
         for seed, n in chunks:
             rc, out = c.go_run(binary, [f"-n={n}", f"-seed={seed}"], timeout=2400)
             if not c.harness_ok(rc, out, "verif-c13"):
